@@ -385,7 +385,7 @@ class _Canon(ast.NodeTransformer):
                 if isinstance(st, ast.Assign) and len(st.targets) == 1 and isinstance(st.targets[0], ast.Name) and isinstance(st.value, ast.Subscript) \
                         and isinstance(st.value.value, ast.Name) and isinstance(st.value.slice, ast.Constant) and isinstance(st.value.slice.value, int) \
                         and st.value.slice.value >= 0 and st.value.value.id != st.targets[0].id \
-                        and 1 <= self._loads_of_binding(fn, st) <= 12:
+                        and 1 <= self._loads_of_binding(fn, st) <= 40:
                     name, owner = st.targets[0].id, st.value.value.id
                     total = self._loads_of_binding(fn, st)
                     seen, j, ok = 0, i + 1, True
@@ -437,8 +437,7 @@ class _Canon(ast.NodeTransformer):
                     and len(st.value.args) == 2 and not st.value.keywords
                 # `inner = table[key]` with a computed key: the same, without the default
                 by_key = isinstance(st, ast.Assign) and len(st.targets) == 1 and isinstance(st.targets[0], ast.Name) and isinstance(st.value, ast.Subscript) \
-                    and isinstance(st.value.value, ast.Name) and not isinstance(st.value.slice, (ast.Constant, ast.Slice)) \
-                    and any(isinstance(x, ast.Attribute) for x in ast.walk(st.value.slice))
+                    and isinstance(st.value.value, ast.Name) and not isinstance(st.value.slice, (ast.Constant, ast.Slice))
                 if not (by_default or by_key):
                     continue
                 if by_default:
